@@ -3,6 +3,7 @@
 // C09: messages and units are isolated (twin worlds: B after a history A1..An vs. B on a fresh context;
 //      U1;U2 vs. U2 alone).
 #include <cerrno>
+#include <memory>
 #include "instrument.h"
 
 namespace {
@@ -509,6 +510,7 @@ void execute_c09(const Plan &plan, Verdict &v) {
         deliver(w2, B, cuts, c2);
     }
     cuts.clear();
+    std::unique_ptr<World> w3;
     size_t ci = 0;
     uint64_t clock = 0;
     std::string last_history_op;
@@ -533,6 +535,15 @@ void execute_c09(const Plan &plan, Verdict &v) {
             COUNT("fault_oversize_chunk");
         } else if (op.kind == "fwpush") {
             w1.fw_push((int) (int16_t) op.arg(0), nullptr, 0);
+        } else if (op.kind == "other" && op.has_s) {
+            // a second instrument context served by the same firmware image: its traffic is no part of w1's history
+            if (!w3) {
+                w3.reset(new World(cfg));
+                instrument_install(*w3, io);
+                w3->seal();
+            }
+            w3->input(op.s);
+            COUNT("other_context_messages");
         }
     }
     // A must be terminated: a partial message that is still pending is executed by the idle timer before B arrives.
@@ -618,7 +629,12 @@ void generate_c09(Rng &r, const GenOpts &g, Plan &p) {
                 if (r.chance(1, 2)) p.ops.push_back(Op("a", {}, r.chance(1, 2) ? "TEST:TREEA?;TEST:ECHO? 12" : "TEST:TEXT? \"ab"));
                 p.ops.push_back(Op("over", {(long) r.below(20)}));
                 break;
-            case 3: p.ops.push_back(Op("fwpush", {-(long) r.range(100, 400)})); break;
+            case 3:
+                if (r.chance(1, 2))
+                    p.ops.push_back(Op("fwpush", {-(long) r.range(100, 400)}));
+                else
+                    p.ops.push_back(Op("other", {}, (r.chance(1, 2) ? gen_message(r, ma) : std::string(broken[r.below(sizeof broken / sizeof broken[0])])) + (r.chance(1, 4) ? "" : gen_terminator(r))));
+                break;
             case 4: {
                 std::string m = mutate_bytes(r, gen_message(r, ma), (int) r.range(1, 3));
                 p.ops.push_back(Op("a", {}, m + gen_terminator(r)));
@@ -655,9 +671,9 @@ const Property C09 = {
     {"malloc"},
     generate_c09,
     execute_c09,
-    {"fault_idle_flush_with_pending", "fault_oversize_chunk", "fault_oversize_chunk_with_pending_bytes", "unit_pairs", "history_messages"},
+    {"fault_idle_flush_with_pending", "fault_oversize_chunk", "fault_oversize_chunk_with_pending_bytes", "unit_pairs", "history_messages", "other_context_messages"},
     "world 1: fresh context, history A1..An (n=1..6) of well-formed, mutated and deliberately broken messages (half blocks, failing handlers, unread parameters, "
-    "unterminated text + idle flush, oversize chunks, firmware errors), then B; world 2: B alone. B's handler invocations, parameters, output bytes, flush count and "
+    "unterminated text + idle flush, oversize chunks, firmware errors; traffic on a second context in between), then B; world 2: B alone, run first. B's handler invocations, parameters, output bytes, flush count and "
     "newly raised codes (-350 masked) must be equal. One run in five checks unit isolation: U1;U2 versus U2 alone. distinct_nontrivial = distinct hashes of both worlds' traces.",
 };
 PropertyRegistrar r08(&C08), r09(&C09);
